@@ -245,6 +245,8 @@ def search(ctx):
 
 
 def replay(ctx, data):
+    if "input" not in data:
+        return appcheck.replay_nofail(ctx, data, run)
     sc = data["input"]
     second = bool(sc.get("closer") or sc.get("closer_line") is not None)
     return appcheck.replay_scenario(ctx, "C14", data, extra_check=closer_extra if second else extra)
